@@ -570,3 +570,14 @@ func VerifFetchRaw(path string, raw []byte) (out VerifNode, err error, panicMsg 
 	}
 	return verifFromNode(got), nil, ""
 }
+
+// VerifFindCellOffset runs btreeNode.findCellOffsetByKey on a node built from the plain-data image.
+func VerifFindCellOffset(v VerifNode, key uint32) (pos int, found bool, panicMsg string) {
+	defer func() {
+		if r := recover(); r != nil {
+			panicMsg = fmt.Sprint(r)
+		}
+	}()
+	pos, found = verifToNode(v).findCellOffsetByKey(key)
+	return pos, found, ""
+}
